@@ -50,6 +50,7 @@ func runC04Str(c StrMapCase, o *vk.Obs) string {
 	}
 	edgeWS := false
 	for i, op := range c.Ops {
+		o.Step() // interleaved execution (vk.Interleave) switches to the other case here
 		k := strKeys[op.A%len(strKeys)]
 		v := strKeys[op.B%len(strKeys)]
 		errf := func(format string, args ...any) string {
